@@ -339,50 +339,43 @@ def qhat_carry(rep):
 
 
 def order_duals(rep):
-    """The order of two stored big integers of the same sign is the order of their magnitudes, reversed for negatives.  bintLT
-    and bintGT each end in `if (IsNeg(a)) {compare lengths, then digits from the top} else {the same}`: the negative branch is the
-    positive one with every < and > exchanged (lengths AND digits), and bintGT is bintLT with the branches exchanged.  A
+    """The order of two stored big integers: decided by the signs, then by the lengths, then by the highest differing digit --
+    reversed when both are negative.  bintLT and bintGT look at their operands through comparisons only, so each is a function
+    of a finite abstract input (two signs, the order of the lengths, the order of the first differing digit): ordereval.py
+    evaluates the C tree on all 36 of them and the result is compared with the order of the integers they describe.  A
     comparison that forgets the sign on one of its two steps orders -2^100 above -2^70."""
-    from . import siblings
-    f = common.extract("bigint.c", "runtime", trees=["bintLT", "bintGT"])
-    br = {}
-    for name in ("bintLT", "bintGT"):
-        fn = f.func(name)
-        cand = [i for i in walk(fn["body"]) if i["k"] == "IfStmt" and len(i["c"]) > 2 and i["c"][2] is not None and
-                any(y["k"] == "MemberExpr" and y["n"] == "isNeg" for y in walk(i["c"][0])) and
-                any(y["k"] in ("ForStmt", "WhileStmt") for y in walk(i["c"][1])) and any(y["k"] in ("ForStmt", "WhileStmt") for y in walk(i["c"][2]))]
-        if len(cand) != 1:
-            raise AnalysisBroken("%s: the final `if (IsNeg(a)) {...} else {...}` over lengths and digits was not found (%d candidates): "
-                                 "the comparison of two stored integers has been restructured and must be re-derived by hand" % (name, len(cand)))
-        br[name] = cand[0]
-
-    def ser(node, flip):
-        # comparisons between two operand quantities (lengths, digits) are exchanged; a loop bound against a constant is not
-        import copy
-        node = copy.deepcopy(node)
-        if flip:
-            sw = {"<": ">", ">": "<", "<=": ">=", ">=": "<="}
-            for y in walk(node):
-                if y["k"] == "BinaryOperator" and y["op"] in sw and common.const_value(y["c"][0]) is None and common.const_value(y["c"][1]) is None:
-                    y["op"] = sw[y["op"]]
-        out = []
-        siblings.serialise(node, lambda x: x, out, True, {})
-        return [t[0] for t in out]
-    pairs = [("bintLT: negative branch = positive branch with < and > exchanged", ser(br["bintLT"]["c"][1], True), ser(br["bintLT"]["c"][2], False), br["bintLT"]),
-             ("bintGT: negative branch = positive branch with < and > exchanged", ser(br["bintGT"]["c"][1], True), ser(br["bintGT"]["c"][2], False), br["bintGT"]),
-             ("bintGT's positive branch = bintLT's negative branch", ser(br["bintGT"]["c"][2], False), ser(br["bintLT"]["c"][1], False), br["bintGT"])]
-    for n, (what, a, b, node) in enumerate(pairs, 1):
-        key = "order-duals@%d" % n
-        if a == b:
-            rep.ok("N7", key, sample={"what": what, "tokens": len(a)})
-        elif len(a) != len(b):
-            raise AnalysisBroken("bintLT/bintGT: %s -- the two sides no longer have the same shape (%d against %d tokens)" % (what, len(a), len(b)))
+    from . import ordereval
+    f = common.extract("bigint.c", "runtime", all_trees=True)
+    n = 0
+    for name, which in (("bintLT", "LT"), ("bintGT", "GT")):
+        ev = ordereval.OrderEval(f)
+        bad = []
+        for neg, L, D in ordereval.inputs():
+            try:
+                got = ev.run(name, neg, L, D)
+            except ordereval.Refused as e:
+                raise AnalysisBroken("%s: %s -- the comparison of two stored integers has been restructured beyond what the "
+                                     "ordering evaluator reads and must be re-derived by hand" % (name, e))
+            if not isinstance(got, int):
+                raise AnalysisBroken("%s returns %r for an abstract input" % (name, got))
+            n += 1
+            want = ordereval.expected(which, neg, L, D)
+            if bool(got) != bool(want):
+                bad.append((neg, L, D, got, want))
+        key = "order-duals:%s" % name
+        if not bad:
+            rep.ok("N7", key, sample={"abstract inputs": 36})
         else:
-            i = next(j for j in range(len(a)) if a[j] != b[j])
-            rep.violation("N7", key, "bigint.c:%d (%s)" % (node["l"], what.split(":")[0].split("'")[0]),
-                          "%s fails at token %d (`%s` against `%s`): one step of the comparison of two stored integers does not "
+            neg, L, D, got, want = bad[0]
+            rep.violation("N7", key, "bigint.c:%d (%s)" % (f.func(name)["l"], name),
+                          "%s answers %d where the integers are ordered %d, for two stored integers with isNeg(a)=%d, isNeg(b)=%d, "
+                          "length(a) %s length(b)%s (%d of the 36 abstract inputs are wrong): one step of the comparison does not "
                           "take the sign into account, so two negative integers of different lengths (or with different leading "
-                          "digits) are ordered the wrong way round" % (what, i, a[i], b[i]))
+                          "digits) are ordered the wrong way round"
+                          % (name, got, want, neg["a"], neg["b"], L,
+                             (", first differing digit of a %s that of b" % D) if L == "=" and D != "=" else
+                             (", all digits equal" if L == "=" else ""), len(bad)))
+    rep.floor("abstract inputs of the order routines evaluated", n, 72)
 
 
 def run(tier, only=None):
